@@ -211,10 +211,151 @@ def run(ctx: Ctx):
     cases += cd.etag_cases(wide=not q, rng=rng)
     ctx.notes["growth_cases"] = len(cases) - grown
     judge_cases(ctx, cases)
+    # the repository's own tests under the recording plugin (keys RepoTests/..)
+    repo_test_traces(ctx)
+
+
+# ---------------------------------------------------------------------------------- the repository's own tests
+REPO_TEST_FILES_QUICK = ["tests/test_wrappers.py", "tests/test_send_file.py", "tests/test_http.py", "tests/test_utils.py",
+                         "tests/middleware/test_shared_data.py", "tests/test_wsgi.py"]
+REPO_FLOOR = {"irm": 3, "mc": 10, "file": 20, "rw": 8}
+
+
+def _repo_lines(records, skipped):
+    """plugin records -> trace lines (vocabulary of ConditionalTrace.tla); returns (lines, meta)."""
+    from ..core import cps
+
+    lines, meta = [], []
+
+    def base(req, etag, lm, length, len_known):
+        ln = {"method": req["method"], "shape": "list", "length": length, "len_known": len_known,
+              "etag_p": etag is not None, "etag_opaque": cps(etag[0]) if etag else [], "etag_weak": bool(etag[1]) if etag else False,
+              "lm_p": lm is not None, "lm": list(lm) if lm else [1970, 1, 1, 0, 0, 0, 0],
+              "status": 0, "exc": "", "cr_n": 0, "cr": [], "cl_n": 0, "cl": [], "r_etag_n": 0, "r_etag": [], "r_lm_n": 0, "r_lm": [],
+              "body": [], "modified": False}
+        for h in cd.HDRS:
+            ln[h + "_p"] = req[h] is not None
+            ln[h] = cps(req[h] or "")
+        return ln
+
+    def outs(ln, r, keys):
+        for k in keys:
+            n, v = r.get(k, [0, ""])
+            ln[(k if k != "xsfh" else "xsf") + "_n"] = n
+            ln[k if k != "xsfh" else "xsf_v"] = cps(v)
+
+    def skip(why):
+        skipped[why] = skipped.get(why, 0) + 1
+
+    for r in records:
+        k = r["k"]
+        if k == "irm":
+            ln = base(r["req"], r["etag"], r["lm"], 0, True)
+            ln.update(op="call", api="irm", status=1, exc=r["exc"], modified=bool(r.get("modified", False)))
+        elif k == "mc":
+            ln = base(r["req"], r["etag"], r["lm"], r["length"], r["len_known"])
+            ln.update(op="rmc", api="mc", status=r["status"], exc=r["exc"], shape="list" if r["shape"] == "list" else "other")
+            outs(ln, r, ("cr", "cl", "r_etag", "r_lm"))
+            ln["data"] = r["data"] if r["data"] is not None else []
+            ln["has_body"] = r.get("body") is not None and r["data"] is not None
+            ln["body"] = r["body"] if r.get("body") is not None else []
+        elif k == "file":
+            if r["size"] >= 2 ** 31 or not (10 ** 8 < r["mtime_s"] < 2 ** 31 - 10 ** 6):
+                skip("file: size / mtime outside the vocabulary")
+                continue
+            eff = r["lm_given"] if r["lm_given"] else cd._utc_tuple(r["mtime_s"], r["mtime_us"])
+            ln = base(r["req"], None, eff, r["size"], True)
+            ln.update(op="rfile", api=r["api"], shape="path", status=r["status"], exc=r["exc"], etag_mode=r["etag_mode"],
+                      etag_given=cps(r["etag_given"]), lm_mode="given" if r["lm_given"] else "stat", mtime_s=r["mtime_s"], mtime_us=r["mtime_us"],
+                      max_age_mode=r["max_age_mode"], max_age=r["max_age"], conditional=r["conditional"], xsf=r["xsf"], path=cps(r["path"]),
+                      prev_p=False, prev_etag=[], prev_etag_n=0, prev_lm=[], prev_size=0, prev_mtime_s=0, prev_mtime_us=0,
+                      t_before=r["t_before"], t_after=r["t_after"], data=r["data"] if r["data"] is not None else [], has_body=False)
+            outs(ln, r, ("cr", "cl", "r_etag", "r_lm", "cc", "exp", "xsfh"))
+            if "xsf_v" not in ln:
+                ln["xsf_v"], ln["xsf_n"] = [], 0
+            for key in ("cc", "exp"):
+                ln.setdefault(key, [])
+                ln.setdefault(key + "_n", 0)
+        elif k == "rw":
+            if not isinstance(r["start"], int) or r["start"] < 0 or (r["len"] is not None and (not isinstance(r["len"], int) or r["len"] < 0)):
+                skip("rw: start / length outside the vocabulary")
+                continue
+            ln = {"op": "rw", "api": "rw", "start": r["start"], "len": -1 if r["len"] is None else r["len"], "base": r["base"] or 0,
+                  "pulled": r["pulled"], "out": r["out"], "finished": r["finished"], "exc": r["exc"], "empty_chunk": r["empty_chunk"],
+                  "status": 0}
+        else:
+            continue
+        ln["t"], ln["i"] = len(lines), 0
+        lines.append(ln)
+        meta.append({"kind": k, "test": r.get("test", "")})
+    return lines, meta
+
+
+def repo_test_traces(ctx: Ctx, files=None, floor=True):
+    """code -> spec from the repository's own tests (keys RepoTests/..)."""
+    import json
+    import os
+    import subprocess
+    import sys
+
+    from ..core import REPO, VERIF
+
+    out = os.path.join(ctx.tmp, "repo-conditional.json")
+    env = dict(os.environ, VERIF_TRACE_OUT=out, PYTHONPATH=VERIF + os.pathsep + os.path.join(REPO, "src"), PYTHONDONTWRITEBYTECODE="1")
+    files = files or (REPO_TEST_FILES_QUICK if ctx.quick else ["tests"])
+    t0 = ctx.elapsed()
+    p = subprocess.run([sys.executable, "-m", "pytest", "-q", "-p", "no:cacheprovider", "-p", "harness.pytest_conditional_plugin",
+                        "--no-header", "-n", "0", *files], cwd=REPO, env=env, capture_output=True, text=True, timeout=1500)
+    if not os.path.exists(out):
+        raise MachineryError("recording the repository's tests produced no trace file:\n" + (p.stdout + p.stderr)[-1500:])
+    dump = json.load(open(out))
+    skipped = dict(dump["skipped"])
+    lines, meta = _repo_lines(dump["records"], skipped)
+    rejects = ctx.judge(AREA, "ConditionalTrace", lines, batch=3000)
+    judged = {}
+    ood = set()
+    for r in rejects:
+        if r["clause"] == "OutOfDomain":
+            ood.add(r["t"])
+            skipped["judge: outside the judged domain"] = skipped.get("judge: outside the judged domain", 0) + 1
+    for k, m in enumerate(meta):
+        if k not in ood:
+            judged[m["kind"]] = judged.get(m["kind"], 0) + 1
+            ctx.count(1, ("repo", m["kind"], k) if lines[k].get("status") in (206, 304, 412, 416) or m["kind"] == "rw" else None)
+    nrej = 0
+    for r in rejects:
+        if r["clause"] == "OutOfDomain":
+            continue
+        nrej += 1
+        m, ln = meta[r["t"]], lines[r["t"]]
+        test = m["test"].split(" ")[0]
+        obs = {k: (_text(v) if isinstance(v, list) and k not in ("lm",) else v) for k, v in ln.items()
+               if k not in ("data", "pulled", "out", "body", "path")}
+        if m["kind"] == "rw":
+            obs.update(pulled=_text(ln["pulled"]), out=_text(ln["out"]))
+        clause = ("File/" if m["kind"] == "file" else "") + r["clause"]
+        ctx.violation(f"RepoTests/{clause}:{m['kind']}:{test}", "RepoTests/" + clause,
+                      {"case": {"op": "repo", "test": test, "record": m["kind"]}, "observed": obs}, kind="c11-repo")
+    ctx.notes["repo_tests"] = {"files": files, "pytest_exit": p.returncode, "pytest_tail": (p.stdout.strip().splitlines() or [""])[-1][:200],
+                               "recorded": len(dump["records"]), "judged": judged, "skipped": skipped, "rejections": nrej,
+                               "wall_s": round(ctx.elapsed() - t0, 1)}
+    # a tree that fails its own tests is judged by what was recorded; without any rejection (here or by the drivers before)
+    # a failing run or too few records mean the recording itself is broken
+    if p.returncode != 0 and nrej == 0 and not ctx.violations:
+        raise MachineryError("the repository's tests fail under the recording plugin without any rejection:\n" + (p.stdout + p.stderr)[-2500:])
+    if floor and p.returncode == 0:
+        for kind, n in REPO_FLOOR.items():
+            if judged.get(kind, 0) < n:
+                raise MachineryError(f"only {judged.get(kind, 0)} '{kind}' records judged from the repository's tests (floor {n}); skipped: {skipped}")
 
 
 def replay(ctx: Ctx, data):
     c = data["case"]["case"]
+    if c.get("op") == "repo":
+        ctx.sample(data["case"])
+        repo_test_traces(ctx, files=[c["test"]], floor=False)
+        ctx.nontrivial.update({("replay", 0), ("replay", 1)})
+        return
     if isinstance(c.get("cfg"), dict) and c["cfg"].get("lm_given"):
         c["cfg"]["lm_given"] = tuple(c["cfg"]["lm_given"])
     ctx.sample(data["case"])
